@@ -122,6 +122,16 @@ def run_adjoint_corpus(programs, configs, rng, tol=1e-8, patterns=('dense',)):
                 o['detail'] = [l for l in msg.strip().splitlines() if l.strip()][-1][:200] if msg.strip() else type(e).__name__
                 out.append(o); continue
             o['ybar'] = ybar.tolist(); o['err'] = float(err); o['scale'] = float(scale)
+            if pattern == 'dense' and seed_ok and err <= tol * scale:
+                # memory layout must not matter: the same input and seed handed over as NON-CONTIGUOUS arrays give the same adjoint
+                try:
+                    a_ = A(); big = numpy.zeros((D, 2 * P) + x.data.shape[2:]); xv = a_.UTPM(big[:, ::2]); xv.data[...] = x.data
+                    cg.pushforward([xv]); bigy = numpy.zeros((ybar.shape[0], 2 * ybar.shape[1]) + ybar.shape[2:], dtype=ybar.dtype); yv = a_.UTPM(bigy[:, ::2]); yv.data[...] = ybar
+                    cg.pullback([yv]); xb2 = cg.independentFunctionList[0].xbar.data
+                    if xb2.shape != xbar.data.shape or not numpy.allclose(xb2, xbar.data, rtol=1e-12, atol=1e-12 * max(1.0, float(numpy.abs(xbar.data).max()))):
+                        o['status'] = 'mismatch'; o['detail'] = 'adjoint depends on the memory layout of input / seed (non-contiguous arrays vs contiguous copies): max diff %.3g' % float(numpy.abs(xb2 - xbar.data).max() if xb2.shape == xbar.data.shape else float('nan'))
+                except Exception as e:
+                    o['status'] = 'sweep-raises'; o['detail'] = 'with non-contiguous input/seed: %s: %s' % (type(e).__name__, str(e).strip().splitlines()[-1][:160] if str(e).strip() else '')
             if not seed_ok: o['status'] = 'seed-modified'
             elif not (err <= tol * scale): o['status'] = 'mismatch'; o['detail'] = 'max |<xbar,v> - <ybar,F\'(x)v>| = %.3g (scale %.3g); lhs=%s rhs=%s' % (err, scale, numpy.round(lr[0], 6).tolist(), numpy.round(lr[1], 6).tolist())
             out.append(o)
